@@ -81,7 +81,7 @@ theorem inCommon_symm {s t : Tri} (hs : TriNondeg s) (ht : TriNondeg t) : inComm
   omega
 
 theorem fanAdj_symm {s t : Face} (hs : TriNondeg s.2) (ht : TriNondeg t.2) : fanAdj s t = fanAdj t s := by
-  simp only [fanAdj, sharesEdge, inCommon_symm hs ht]
+  simp only [fanAdj, inCommon_symm hs ht]
 
 /-! ## `SingularVertices` -/
 
